@@ -255,7 +255,8 @@ impl Check for C09 {
                     let tr = if be { p.parse_utf16_be_with_options(&mut read, None, None) } else { p.parse_utf16_le_with_options(&mut read, None, None) };
                     ctx.out.inner += 1;
                     // a chunk of one code unit can split a surrogate pair: same class as a split multi-byte character
-                    let splits_pair = chunk_units == 1 && units.iter().any(|u| (0xD800..0xDC00).contains(u)) || (chunk_units != usize::MAX && chunk_units % 2 == 1 && units.iter().any(|u| (0xD800..0xDC00).contains(u)));
+                    // a chunk boundary between the two halves of a surrogate pair
+                    let splits_pair = chunk_units != usize::MAX && units.iter().enumerate().any(|(k, u)| (0xD800..0xDC00).contains(u) && (k + 1) % chunk_units == 0);
                     let sig = if splits_pair { "C09:chunking:split_inside_char" } else if ref_err { "C09:utf16:erroneous_doc" } else if be { "C09:utf16be" } else { "C09:utf16le" };
                     match tr {
                         Some(tr) => {
